@@ -82,7 +82,7 @@ def r1_overrides(chk: Check) -> None:
         chk.violation("C14.R1", loop, "stateful before_call applies overrides", "the stateful phase never applies --set-* overrides", loop.loc())
     else:
         guard = parent(bc.node)
-        chk.decide(isinstance(guard, ast.If) and unparse(guard.test) == "config.override is not None", "C14.R1", bc, "before_call defined iff config.override is not None", f"guard is `{unparse(guard.test) if isinstance(guard, ast.If) else '?'}`", bc.loc())
+        chk.decide(isinstance(guard, ast.If) and any(x.endswith("config.override is not None") for x in canon(loop, guard.test)), "C14.R1", bc, "before_call defined iff config.override is not None", f"guard is `{unparse(guard.test) if isinstance(guard, ast.If) else '?'}`", bc.loc())
         olp = next((n for n in walk_body(bc.node) if isinstance(n, ast.For) and "for_operation(" in unparse(n.iter, 300) and isinstance(n.target, ast.Tuple) and len(n.target.elts) == 2), None)
         if olp is None:
             chk.undecided("C14.R1", bc, "container.update(entry)", "loop over config.override.for_operation(...) not recognised", bc.loc())
